@@ -300,6 +300,11 @@ def _build(out, case, d, sched, jitter, endless):
         if case.get("stale_tmp") and ext.lower() != ".wav":
             _stale_wav(out.saver_path + ".wav", sr, sw, ch)
         skw = {} if case["saver"]["cache"] is None else {"cache_size_sec": case["saver"]["cache"]}  # None: the default
+        if case["saver"].get("fmt") and ext.lower() in ("", "." + case["saver"]["fmt"].lower()):
+            # the export format given explicitly (any letter case), in agreement with the name or on a name without extension
+            skw["export_format"] = case["saver"]["fmt"]
+            if ext == "":
+                out.saver_ext = "." + case["saver"]["fmt"].lower()
         saver = W.StreamSaverWorker(reader, out.saver_arg, **skw)
         top = saver
         out.wf_calls = []
@@ -489,8 +494,24 @@ def run_pipeline(case, scheduled=True, stop_step=None, jitter=None, endless=Fals
                     out.blocks_at_stop = len(src.handed)
                     out.logs_at_stop = [len(o.log) for o in out.recs]
                     out.tokenizer_done_at_stop = (sched.rec_of(tokenizer).done if scheduled else None)
-                    tokenizer.stop_all()
-                    out.stop_all_returned = True
+                    if case.get("stop_from_thread") and not scheduled:
+                        # the program asks for the stop from a thread of its own (a GUI callback, a timer)
+                        box = []
+
+                        def _stopper():
+                            try:
+                                tokenizer.stop_all()
+                            except BaseException as exc:  # noqa: BLE001
+                                box.append(exc)
+
+                        th_ = threading.Thread(target=_stopper)
+                        th_.start()
+                        th_.join(60)
+                        out.stop_error = box[0] if box else None
+                        out.stop_all_returned = not th_.is_alive() and not box
+                    else:
+                        tokenizer.stop_all()
+                        out.stop_all_returned = True
                 for w in workers:
                     if scheduled:
                         w.join()
@@ -541,7 +562,8 @@ def release(run):
     import gc
 
     for r in [run] + ([run.twin] if getattr(run, "twin", None) is not None else []):
-        for name in ("saver", "joiner", "regsave", "printer", "command", "tokenizer", "observers", "workers", "proxy", "recs", "src"):
+        for name in ("saver", "joiner", "regsave", "printer", "command", "tokenizer", "observers", "workers", "proxy", "recs", "src",
+                     "sched", "player", "wf_calls"):
             if hasattr(r, name):
                 setattr(r, name, None)
     gc.collect()
